@@ -66,6 +66,24 @@ let utf8_valid (l : n list) : bool =
 
 let comp_tag = function "zstd" -> 1 | "lz4" -> 2 | _ -> 0
 
+let ranges (v : int list) : string =
+  let a = Array.of_list (List.sort compare v) in
+  let n = Array.length a in
+  let out = ref [] in
+  let i = ref 0 in
+  while !i < n do
+    let j = ref !i in
+    while !j + 1 < n && a.(!j + 1) = a.(!j) + 1 do incr j done;
+    out := (if !i = !j then string_of_int a.(!i) else Printf.sprintf "%d-%d" a.(!i) a.(!j)) :: !out;
+    i := !j + 1
+  done;
+  String.concat "," (List.rev !out)
+
+let tomb_pages = ref 1
+let tomb_dev : tomb list ref = ref []
+let tomb_next = ref 1
+let tomb_bug = ref false
+
 let () =
   (try
     while true do
@@ -135,6 +153,18 @@ let () =
                      Printf.sprintf "ok=1 infos=1 off=%d len=%d klen=%d vlen=%d hdr=%s"
                        (int_of_n i.b_offset) (int_of_n i.b_len) (List.length kenc) mvlen (hex hdr)
                    end)
+          | "tombnew" ->
+              tomb_pages := geti kv "pages"; tomb_next := 1;
+              tomb_bug := (gets_d kv "bug_tail" "0" = "1");
+              tomb_dev := fresh_device (n_of_int !tomb_pages); "ok"
+          | "tombsession" ->
+              let k = geti kv "n" in
+              let (g, rcv) = topen !tomb_bug (n_of_int !tomb_pages) !tomb_dev in
+              let ts = List.init k (fun i -> let s = !tomb_next + i in { t_hash = n_of_int (s * 7); t_seq = n_of_int s }) in
+              tomb_next := !tomb_next + k;
+              tomb_dev := (tappend g ts).l_slots;
+              let seqs = List.map (fun t -> int_of_n t.t_seq) rcv in
+              Printf.sprintf "rec=%s count=%d badhash=0" (ranges seqs) (List.length rcv)
           | _ -> "skip" in
         print_endline (cmd ^ " | " ^ obs)
       end
